@@ -1236,6 +1236,8 @@ fn designator_to_asg(
                 };
                 Some(width)
             } else {
+                // A width or length must be a compile-time constant.
+                context.insert_error(InvalidDesignatorError, &identifier);
                 None
             }
         }
